@@ -202,16 +202,18 @@ def setContent (s : MSet) (k : Nat) (c : List Nat) : Except String MSet :=
     if f.cap < (c.length : Int) then .error "file content large than capacity" else
     .ok (updateFile s k f { f with size := c.length, lines := setLinesForContent c })
 
-/-- `AddLineColumnInfo(offset, filename, line, column)` on the `k`-th file:
+/-- `AddLineColumnInfo(offset, filename, line, column)` on the `k`-th file; accepted iff
 `i == 0 || infos[i-1].Offset < offset && offset < size` -/
+def infoAccepted (f : MFile) (li : LineInfo) : Bool :=
+  match f.infos.getLast? with
+  | none => true
+  | some prev => decide (prev.offset < li.offset) && decide (li.offset < f.size)
+
 def addLineInfo (s : MSet) (k : Nat) (li : LineInfo) : Except String MSet :=
   match s.files[k]? with
   | none => .error "no such file"
   | some f =>
-    let ok : Bool := match f.infos.getLast? with
-      | none => true
-      | some prev => decide (prev.offset < li.offset) && decide (li.offset < f.size)
-    if ok then .ok (updateFile s k f { f with infos := f.infos ++ [li] }) else .ok s
+    if infoAccepted f li then .ok (updateFile s k f { f with infos := f.infos ++ [li] }) else .ok s
 
 /-! ## serialisable form -/
 
